@@ -249,22 +249,16 @@ ST_RESET = ['forall(lambda s_k: s_k not in self._out)', 'len(self._symsOrder) ==
             'self._moduleRevision is None', 'not ST_ENTRY_OUT(self._out)']
 
 CONTRACTS += [
-    Contract(id='symtable.genImports', file=FILE, func='SymtableCodeGen.genImports', serves=['C03'], trusted=True,
-             params={'self': SELF, 'imports': Any}, returns=Tup(MapOf(), TupOf(Str)),
-             assigns=['self._importMap'],
-             requires=['forall(lambda s_k: s_k not in self._importMap)'],
-             ensures={'module_names': 'implies(not raised, is_dict(result[0]))'},
-             raises={'PySmiSemanticError': True},
-             notes=['assumed summary: genImports fills the import map and returns the imported module names (its own '
-                    'contract serves C16)']),
     Contract(id='symtable.prepData', file=FILE, func='SymtableCodeGen.prepData', serves=['C03'], trusted=True,
              params={'self': SELF, 'pdata': Any, 'classmode': Any}, returns=Any, pure=True,
              ensures={'a_list': 'implies(not raised, is_list(result))'}, raises={'PySmiError': True},
              notes=['assumed summary: prepData maps the clause arguments through the sub-handlers']),
-    Contract(id='symtable.genCode', file=FILE, func='SymtableCodeGen.genCode', serves=['C03', 'C06', 'C12', 'C01'],
+    Contract(id='symtable.genCode', file=FILE, func='SymtableCodeGen.genCode', serves=['C03', 'C06', 'C12', 'C01', 'C08'],
              params={'self': SELF, 'ast': Tup(Str, Any, Any, Opt(SeqOf())), 'symbolTable': MapOf(), 'kwargs': NoneT},
              setup=_st_gencode_setup,
-             requires=['implies(ast[3] is not None, forall(ast[3], lambda d: not truthy(d) or (is_tuple(d) and len(d) >= 1 and is_str(d[0]))))'],
+             requires=['implies(ast[3] is not None, forall(ast[3], lambda d: not truthy(d) or (is_tuple(d) and len(d) >= 1 and is_str(d[0]))))',
+                       # value type of importPart (grammar contract): None or module name -> list of symbol names
+                       'ast[2] is None or (is_dict(ast[2]) and forall(ast[2], lambda k, v: is_list(v) and forall(seq(v), lambda s: is_str(s))))'],
              loops={
                  1: {'assigns': ST_PER_MODULE,
                      'invariant': ['implies(_i == 0, %s)' % r for r in ST_RESET] + ['self.moduleName[0] == ast[0]']},
@@ -282,5 +276,9 @@ CONTRACTS += [
                  'table_is_this_modules_own_object': 'implies(not raised, result[1] is self._out and not ST_ENTRY_OUT(result[1]))',
                  'summary_is_this_modules': 'implies(not raised, result[0].name == ast[0] and same(result[0].revision, self._moduleRevision))',
              },
+             # C08: the module summary reports exactly the module names genImports returned (which name every module of
+             # the IMPORTS clause - contract symtable.genImports), in the same order
+             at_return={1: {'imported_is_what_genImports_reported':
+                            'same(seq(result[0].imported), seq(importedModules))'}},
              raises={'PySmiSemanticError': True, 'PySmiError': True}),
 ]
